@@ -8,17 +8,17 @@ from checks import appcommon
 # per property: directed scenarios, random profiles (quick / thorough), outcome kinds that must be
 # exercised on the unchanged tree (vacuity guard), bounded model config(s)
 TABLE = {
-    "C02": dict(directed=["recreate_in_block", "genesis_twins_unbond", "twin_jail", "huge_stake", "same_block_withdraw",
+    "C02": dict(evm=True, directed=["evm_value", "evm_selfdestruct", "evm_nested_revert", "evm_mixed", "recreate_in_block", "genesis_twins_unbond", "twin_jail", "huge_stake", "same_block_withdraw",
                           "slash_then_unstake", "no_proposer_block", "many_unbonding", "forced_unbond"],
                 quick=[dict(n=6, blocks=25), dict(n=4, blocks=20, boundary=True)],
                 thorough=[dict(n=40, blocks=40), dict(n=40, blocks=40, seed_off=50), dict(n=30, blocks=30, boundary=True),
                           dict(n=30, blocks=60, maxtx=8, seed_off=70)],
                 need=[("transfer", True), ("staking", True), ("unstaking", True), ("withdraw", True), ("evidence", True)]),
-    "C04": dict(directed=["nonce_replay", "fee_edges", "setdoc_and_accounts"],
+    "C04": dict(evm=True, directed=["evm_basic", "evm_fail", "evm_mixed", "nonce_replay", "fee_edges", "setdoc_and_accounts"],
                 quick=[dict(n=8, blocks=20, maxtx=7)],
                 thorough=[dict(n=50, blocks=40, maxtx=8), dict(n=50, blocks=40, maxtx=8, seed_off=31)],
                 need=[("transfer", True), ("transfer", False), ("staking", True)]),
-    "C05": dict(directed=["fee_edges", "nonce_replay", "vote_window_edges", "forced_unbond", "huge_stake", "same_block_withdraw",
+    "C05": dict(evm=True, directed=["evm_fail", "evm_nested_revert", "fee_edges", "nonce_replay", "vote_window_edges", "forced_unbond", "huge_stake", "same_block_withdraw",
                           "setdoc_and_accounts", "price_change"],
                 quick=[dict(n=8, blocks=20, maxtx=7), dict(n=3, blocks=15, boundary=True)],
                 thorough=[dict(n=50, blocks=40, maxtx=8), dict(n=40, blocks=40, maxtx=8, seed_off=11), dict(n=30, blocks=30, boundary=True)],
@@ -47,7 +47,7 @@ TABLE = {
                 quick=[dict(n=8, blocks=30)],
                 thorough=[dict(n=60, blocks=50), dict(n=60, blocks=60, seed_off=37)],
                 need=[("proposal", True), ("proposal", False), ("voting", True), ("voting", False)]),
-    "C16": dict(directed=["fee_edges", "price_change", "no_proposer_block", "two_proposals_one_block", "same_block_withdraw", "many_unbonding"],
+    "C16": dict(evm=True, directed=["evm_basic", "evm_value", "evm_fail", "fee_edges", "price_change", "no_proposer_block", "two_proposals_one_block", "same_block_withdraw", "many_unbonding"],
                 quick=[dict(n=8, blocks=25, maxtx=7)],
                 thorough=[dict(n=60, blocks=40, maxtx=8), dict(n=60, blocks=40, maxtx=8, seed_off=41)],
                 need=[("transfer", True), ("transfer", False), ("withdraw", True)]),
@@ -56,6 +56,10 @@ TABLE = {
                 quick=[dict(n=4, blocks=20, maxtx=7)],
                 thorough=[dict(n=40, blocks=40, maxtx=8), dict(n=20, blocks=30, boundary=True)],
                 need=[("transfer", True), ("transfer", False), ("voting", True), ("proposal", True), ("setdoc", True), ("unstaking", True), ("withdraw", True)]),
+    "C17": dict(directed=["evm_basic", "evm_value", "evm_nested_revert", "evm_selfdestruct", "evm_fail", "transfer_to_created", "evm_mixed"], evm=True,
+                quick=[dict(n=8, blocks=25, maxtx=6)],
+                thorough=[dict(n=60, blocks=40, maxtx=8), dict(n=60, blocks=40, maxtx=8, seed_off=47), dict(n=30, blocks=30, boundary=True, seed_off=53)],
+                need=[("contract", True), ("contract", False), ("transfer", True)]),
     "C19": dict(directed=["query_in_flight", "setdoc_and_accounts", "vote_window_edges", "forced_unbond"],
                 quick=[dict(n=6, blocks=20, extra=["-queries", "3", "-prestart", "0.15"])],
                 thorough=[dict(n=40, blocks=40, extra=["-queries", "4", "-prestart", "0.1"]),
@@ -74,13 +78,13 @@ def run(prop, tier, replay=None, mc=None):
     v = vlib.Verdict(prop, tier)
     cfg = TABLE[prop]
     if replay:
-        tr = appcommon.replay_trace(replay)
+        tr = appcommon.replay_trace(replay, evm=cfg.get("evm", False))
         st = appcommon.collect(v, prop, [tr], [])
         return v.finish("model_checking", {"states": 1, "transitions": 1, "traces_validated_against_impl": st["traces"],
                                            "samples": appcommon.sample_events(tr, 3) or [{"replay": replay}]})
     mcres = mc(tier) if mc else None
     directed = cfg.get("directed_thorough", cfg["directed"]) if tier == "thorough" else cfg["directed"]
-    traces, sdirs, dst = appcommon.gen_traces(tier, directed, cfg[tier])
+    traces, sdirs, dst = appcommon.gen_traces(tier, directed, cfg[tier], evm=cfg.get("evm", False))
     st = appcommon.collect(v, prop, traces, sdirs)
     missing = [k for k in cfg["need"] if tuple(k) not in st["kinds"]]
     if missing and not v.violations:
